@@ -18,3 +18,4 @@ open Spydr.Xform
 #print axioms flatten_preserves_elab_conn
 #print axioms uniquify_behind_original
 #print axioms uniquify_finishes
+#print axioms uniquify_correct
